@@ -5,4 +5,5 @@ INVARIANT Complete
 INVARIANT Sound
 INVARIANT ClosedForm
 INVARIANT Rounds
+INVARIANT DevAgrees
 CHECK_DEADLOCK FALSE
